@@ -861,7 +861,27 @@ def coq_obs(eff, variant):
 
 def coq_term(case, obs):
     if case.get("kind") == "guards":
-        return None
+        # the decision table of Model/DatasetInit.v on the constructor scenarios: compared only where the
+        # implementation raised (C02 demands no raise), plus the valid control dataset
+        cols = ["x", "c", "m", "t", "t2", "ts", "one", "sp", "bad"]
+        base = {"columns": cols, "stypes": [("x", "numerical"), ("c", "categorical")], "target": None, "split": None,
+                "split_vals": [], "sep": None, "fmt": None, "text": None, "image": None, "tok": None}
+        scen = {
+            "partial-embedder-cfg": dict(base, stypes=[("t", "text_embedded"), ("t2", "text_embedded"), ("x", "numerical")],
+                                         text=["t"]),
+            "split-col-missing": dict(base, split="nope"),
+            "split-col-in-stypes": dict(base, stypes=base["stypes"] + [("sp", "numerical")], split="sp", split_vals=[0, 1, 2]),
+            "split-col-bad-values": dict(base, split="bad", split_vals=[0, 5, 1]),
+            "missing-column": dict(base, stypes=base["stypes"] + [("ghost", "numerical")]),
+            "multilabel-target": dict(base, stypes=[("m", "multicategorical"), ("x", "numerical")], target="m", sep="|"),
+        }
+        parts = [f"negb (init_accepts {M.ds_args_literal(a)})" for n, a in scen.items() if obs["raised"].get(n)]
+        if obs["raised"].get("sep-wrong-type"):
+            parts.append("negb (init_accepts (MkArgs " + M.plist(cols, M.pstr) + " [([109], st_multicategorical); "
+                         "([120], st_numerical)] None None [] (ADict [([109], PBad)]) (ASingle PNone) (ASingle PNone) "
+                         "(ASingle PNone) (ASingle PNone)))")
+        parts.append("init_accepts " + M.ds_args_literal(dict(base, target="c", split="sp", split_vals=[0, 1, 2])))
+        return "(" + " && ".join(parts) + ")"
     if case.get("kind") == "keyless":
         # the model mirrors the current code's raise: it is compared only for the orders on which the implementation
         # raised (a tolerant implementation is not a violation of C02) and for the order that must work
@@ -886,6 +906,9 @@ def coq_term(case, obs):
         v = V[tag]
         fr = coq_frame(eff, v, parsed, v["labels"], v["columns"])
         parts.append(f"check_tf pval_eqb {tgt} {fr} {coq_obs(eff, v)}")
+    # Dataset.__init__ (Model/DatasetInit.v): these arguments are accepted and canonicalised as the real dataset did
+    if V["A"].get("used", {}).get("_args"):
+        parts.append(M.check_config_term(V["A"]["used"]["_args"]))
     # the model's later calls of the same converter object vs the later conversions observed
     fra = coq_frame(eff, V["A"], parsed, V["A"]["labels"], V["A"]["columns"])
     # ("same-2" is the 5th later call; by converter_state_is_fixed_point it is the same computation as the 2nd)
